@@ -18,8 +18,9 @@ RULES = {
     'R7': 'no stale payload can pass for a chunk: before a chunk is published the two words the reader will take for the next header (at the new write_pt) are overwritten - the length word always, the marker word unless it is the published chunk\'s own length word (ring filled completely) - with values that are not the published-chunk marker',
     'R8': 'the space test cannot be fooled by a huge length: wherever qb_rb_chunk_alloc compares the free space with len + margin, len is already known not to exceed what the whole ring holds (a test of len against a quantity measured on word_size, made without adding to len): for the twelve lengths below SIZE_MAX the sum wraps to a small number',
     'R9': 'the notifier\'s count is the number of chunks not taken yet, whatever the order of the reader\'s calls: qb_rb_chunk_peek gives the count it waited for back on every path (it takes no chunk), qb_rb_chunk_reclaim and qb_rb_chunk_read take one count for the chunk they take out (reclaim without blocking, and not at all if no count is there), and the internal reclaim they share takes none',
+    'R10': 'a size the ring\'s 32-bit words cannot describe is refused at open: the requested size is compared with a constant below 2^32 before the margin is added to it, and the rounded size with a constant below 2^32 before word_size (a 32-bit field, as are the indices and each chunk\'s length word) is computed from it - otherwise the ring is silently smaller than asked for, or chunk lengths and index steps wrap',
 }
-FLOORS = {'R1': 5, 'R2': 9, 'R3': 5, 'R4': 5, 'R5': 9, 'R6': 5, 'R7': 3, 'R8': 2, 'R9': 4}
+FLOORS = {'R1': 5, 'R2': 9, 'R3': 5, 'R4': 5, 'R5': 9, 'R6': 5, 'R7': 3, 'R8': 2, 'R9': 4, 'R10': 2}
 
 
 def run(ctx):
@@ -39,6 +40,7 @@ def run(ctx):
     r6(ctx)
     r7(ctx)
     r8(ctx)
+    r10(ctx)
     r9(ctx)
 
 
@@ -581,3 +583,39 @@ def r9(ctx):
         ok = not hits
     ctx.check('R9', 'read-takes-one-count', ok, ir2[0] if ir2 else rd, 'qb_rb_chunk_read waits once and keeps that count for the chunk it takes',
               'qb_rb_chunk_read does not pair one count with the chunk it takes')
+
+
+def r10(ctx):
+    prog = ctx.prog
+    U32 = 2 ** 32 - 1
+    for f in [g for g in prog.all_fns(files={'lib/ringbuffer.c'}) if any(last_field(st.lhs) == ('qb_ringbuffer_shared_s', 'word_size') for st in g.events('STORE'))]:
+        ws = [st for st in f.events('STORE') if last_field(st.lhs) == ('qb_ringbuffer_shared_s', 'word_size')]
+        # only the function that computes it from a requested size (create_from_file installs what R1 of C15 has checked)
+        szp = [pp['n'] for pp in f.params if (pp.get('ty') or '').replace('const ', '') in ('size_t', 'unsigned long')]
+        if not szp:
+            continue
+        for st in ws:
+            srcv = [n['n'] for n in walk(st.rhs) if n.get('k') == 'var' and n.get('sc') != 'g']
+            if not srcv:
+                raise AnalysisBroken('%s: word_size is not computed from a local size' % f.name)
+            rv = srcv[0]
+
+            def small(a, fb, rv=rv):
+                return a.ls == rv and a.rc is not None and ((a.op == '<=' and a.rc <= U32) or (a.op == '<' and a.rc <= U32 + 1))
+            path = f.uncut_path(st, small)
+            ctx.check('R10', '%s:rounded-size-fits-32-bits' % f.name, path is None, st,
+                      'word_size is computed only from a rounded size known to be below 2^32',
+                      'word_size (32 bits) is computed from %s whatever its value: from 16 GiB on the ring is silently smaller than asked for (or has no words at all), from 4 GiB on chunk lengths and index steps wrap' % rv,
+                      {'path': f.path_lines(path) if path else None})
+        # the margin is added to the requested size only when that cannot wrap
+        adds = [st for st in f.events('STORE') if estr(st.lhs) in szp and st.d['op'] == '+=']
+        for ad in adds:
+            pn = estr(ad.lhs)
+
+            def bounded(a, fb, pn=pn):
+                return a.ls == pn and a.rc is not None and a.op in ('<=', '<') and a.rc <= U32
+            path = f.uncut_path(ad, bounded)
+            ctx.check('R10', '%s:requested-size-bounded-before-margin' % f.name, path is None, ad,
+                      'the margin is added to a requested size known to be below 2^32',
+                      'the margin is added to the requested size %s whatever its value: a size near SIZE_MAX wraps and a one-page ring is handed out for it' % pn,
+                      {'path': f.path_lines(path) if path else None})
